@@ -66,13 +66,23 @@ func alphabet() []storex.Letter {
 	}
 }
 
+// the exhaustive scope differs per seed (the thorough tier runs three seeds)
+var variant int
+
 func preamble() []*storex.Op {
+	b1, b2, delay := "release", "delete", 15
+	switch variant {
+	case 1:
+		b1, b2, delay = "delete", "release", 0
+	case 2:
+		b2 = "release"
+	}
 	return []*storex.Op{
 		{Kind: "reg", Reg: &storex.RegArg{Node: storex.NodeArg{Name: "n1", ID: storex.NodeIDs[1], Addr: "10.0.0.1"},
 			Checks: []storex.ChkArg{{Node: "n1", ID: "c1", Status: "passing"}}}},
 		{Kind: "reg", Reg: &storex.RegArg{Node: storex.NodeArg{Name: "n2", ID: storex.NodeIDs[2], Addr: "10.0.0.1"}}},
-		{Kind: "sc", Sess: &storex.SessArg{ID: storex.Sessions[0], Node: "n1", Behavior: "release", Checks: []string{"c1"}, LockDelay: 15}},
-		{Kind: "sc", Sess: &storex.SessArg{ID: storex.Sessions[1], Node: "n2", Behavior: "delete"}},
+		{Kind: "sc", Sess: &storex.SessArg{ID: storex.Sessions[0], Node: "n1", Behavior: b1, Checks: []string{"c1"}, LockDelay: delay}},
+		{Kind: "sc", Sess: &storex.SessArg{ID: storex.Sessions[1], Node: "n2", Behavior: b2}},
 		{Kind: "pqs", PQ: [2]string{storex.QueryIDs[0], storex.Sessions[0]}},
 	}
 }
@@ -82,6 +92,8 @@ func main() {
 	run.Rule = "every result line and every full table dump (kvs, tombstones, sessions, session_checks, nodes, services, checks, prepared-queries, index table, lock-delay keys) of the real state store after every command equals the Lean model's; LockInv, acquire/release verdicts and same-step release hold on the implementation"
 	mons := func() []storex.Monitor { return []storex.Monitor{storex.LockMon{}} }
 	storex.RandomHistories(run, []*storex.Profile{sessionHeavy, catalogHeavy, txnHeavy}, run.Scale(400, 4000), 35, mons, false)
+	variant = int((run.Seed / 7) % 3)
+	run.Tag("exhaustive-variant:" + string(rune('0'+variant)))
 	storex.Exhaustive(run, preamble, alphabet(), run.Scale(3, 4), mons, false)
 	run.Finish()
 }
